@@ -224,6 +224,19 @@ def edits(rng, L):
                     e = copy.deepcopy(base)
                     e["services"][i][which][j][attr] = val
                     out.append((f"change-{attr}", e, dict(changed=[s["name"]], prop=label, param=p["name"])))
+    # two structural edits at once: a service is deleted and a LATER one renamed (all request prefixes distinct, so that the
+    # tool can tell the two apart): exactly one deletion and exactly one rename
+    pres = [json.dumps(prefix_of(sv)) for sv in base["services"]]
+    if len(set(pres)) == len(pres):
+        for i in range(len(base["services"])):
+            for j in range(len(base["services"])):
+                if i == j:
+                    continue
+                e = copy.deepcopy(base)
+                e["services"][j]["name"] = base["services"][j]["name"] + "_renamed"
+                del e["services"][i]
+                out.append(("delete+rename", e, dict(deleted=[base["services"][i]["name"]],
+                                                      renamed=[[base["services"][j]["name"] + "_renamed", base["services"][j]["name"]]])))
     # a data object edited in place (same id, same name): every service using it has changed, no other
     for dop in ("dopA", "dopB"):
         users = [s["name"] for s in base["services"] if dop in used_dops(s)]
